@@ -90,6 +90,56 @@ def gated_off_phrase(draw, spec: Dict, host_index: int) -> List[List]:
     return [o for o in ops if o[1] is not None]
 
 
+def _setup_attack(spec: Dict, draw) -> None:
+    """A reachable password-less database + a data-manipulation bot (and the database-client it sends its query
+    through) driven by a red agent: malicious frames (NMNE), traffic, compromised software/files behind scan-gated health."""
+    o = spec["obs"]
+    spec["nmne"] = True
+    o["include_nmne"] = True
+    o["num_nics"] = max(o["num_nics"], 1)
+    o["num_applications"] = max(o["num_applications"], 1)
+    o["num_services"] = max(o["num_services"], 1)
+    spec["seed"] -= spec["seed"] % 2  # even seed: the generated database has no password
+    spec["acl_deny"] = False
+    srv = spec["zones"][0][0]
+    srv["sw"] = sorted(set(srv["sw"]) | {"db"})
+    srv["off"] = False
+    att = spec["zones"][-1][-1]
+    if att is srv:
+        att = spec["zones"][0][1]
+    att["kind"] = "computer"
+    att["off"] = False
+    keep = [t for t in att["sw"] if t in CLIENT_SW and t not in ("dmbot", "dbc")][:1]
+    att["sw"] = sorted(keep + ["dbc", "dmbot"])
+    spec["agents"]["red"] = draw(st.sampled_from(["periodic", "dm"]))
+    spec["agents"]["red_start"] = draw(st.integers(0, 2))
+    spec["agents"]["red_freq"] = draw(st.integers(1, 2))
+    spec["net_dev_up"] = 0
+
+
+@st.composite
+def nic_toggle_phrase(draw, spec: Dict) -> List[List]:
+    """While the attack is running every step: disable the NIC of the attacked (or the attacking) host, keep observing
+    the disabled interface for 1-3 steps, enable it again, observe 1-3 quiet-or-not steps; two or three rounds, so that
+    some disable lands in a step in which the interface has already captured frames."""
+    _, meta = gen_scenario.build(spec)
+    flat = [h["name"] for h in meta["hosts"]]
+    srv = flat[0]
+    att = next((h["name"] for h in meta["hosts"] if "data-manipulation-bot" in h["apps"]), flat[-1])
+    ops: List[List] = [["step", 0] for _ in range(draw(st.integers(1, 5)))]  # port scan / connection stages pass
+    for _ in range(draw(st.integers(2, 3))):
+        n = draw(st.sampled_from([srv, srv, att]))
+        dis = action_index(meta, "host-nic-disable", node_name=n, nic_num=1)
+        ena = action_index(meta, "host-nic-enable", node_name=n, nic_num=1)
+        if dis is None or ena is None:
+            continue
+        ops.append(["step", dis])
+        ops += [["step", 0] for _ in range(draw(st.integers(1, 3)))]
+        ops.append(["step", ena])
+        ops += [["step", 0] for _ in range(draw(st.integers(1, 3)))]
+    return ops
+
+
 @st.composite
 def sessions_phrase(draw, spec: Dict) -> List[List]:
     """Several remote logins onto one host in a row (remote_sessions counts 0..3, capped), then a log-off."""
@@ -108,33 +158,18 @@ def sessions_phrase(draw, spec: Dict) -> List[List]:
 @st.composite
 def steered_spec(draw, **kw):
     spec = draw(gen_scenario.spec_strategy(**kw))
-    steer = draw(st.sampled_from(["gated_off", "attack", "sizes", "none", "acl", "gated_off", "attack", "sizes", "none"]))
+    steer = draw(st.sampled_from(["gated_off", "nic_toggle", "attack", "sizes", "none", "acl", "gated_off", "nic_toggle", "attack", "sizes", "none"]))
     o = spec["obs"]
-    if steer == "attack":
-        # a reachable database + a data-manipulation bot driven by a red agent: malicious frames (NMNE), traffic,
-        # compromised software/files behind scan-gated health
-        spec["nmne"] = True
-        o["include_nmne"] = True
-        o["num_nics"] = max(o["num_nics"], 1)
-        o["num_applications"] = max(o["num_applications"], 1)
-        o["num_services"] = max(o["num_services"], 1)
-        spec["seed"] -= spec["seed"] % 2  # even seed: the generated database has no password
-        spec["acl_deny"] = False
-        srv = spec["zones"][0][0]
-        srv["sw"] = sorted(set(srv["sw"]) | {"db"})
-        srv["off"] = False
-        att = spec["zones"][-1][-1]
-        if att is srv:
-            att = spec["zones"][0][1]
-        att["kind"] = "computer"
-        att["off"] = False
-        # the bot sends its query through the host's database-client
-        keep = [t for t in att["sw"] if t in CLIENT_SW and t not in ("dmbot", "dbc")][:1]
-        att["sw"] = sorted(keep + ["dbc", "dmbot"])
-        spec["agents"]["red"] = draw(st.sampled_from(["periodic", "dm"]))
-        spec["agents"]["red_start"] = draw(st.integers(0, 2))
-        spec["agents"]["red_freq"] = draw(st.integers(1, 2))
-        spec["net_dev_up"] = 0
+    if steer in ("attack", "nic_toggle"):
+        _setup_attack(spec, draw)
+        if steer == "nic_toggle":
+            # red acts in every step from step 0/1 on and BEFORE blue inside a step, so frames are captured by an
+            # interface that blue disables later in the same step; NMNE and monitored traffic are both observed
+            spec["agents"]["red_freq"] = 1
+            spec["agents"]["red_start"] = draw(st.integers(0, 1))
+            spec["agents"]["blue_last"] = True
+            o["traffic"] = True
+            spec["max_len"] = max(spec["max_len"], 24)
     elif steer == "acl":
         o["num_rules"] = max(o["num_rules"], 3)
         if spec["family"] == "LAN":
@@ -173,6 +208,10 @@ def case_strategy(draw, max_ops: int = 30, **kw):
     spec = draw(steered_spec(**kw))
     if spec["steer"] == "gated_off":
         head = draw(gated_off_phrase(spec, spec["gated_host"]))
+        tail = draw(ops_strategy(max(max_ops - len(head), 1), min_ops=0))
+        return {"src": "gen", "spec": spec, "ops": head + tail}
+    if spec["steer"] == "nic_toggle":
+        head = draw(nic_toggle_phrase(spec))
         tail = draw(ops_strategy(max(max_ops - len(head), 1), min_ops=0))
         return {"src": "gen", "spec": spec, "ops": head + tail}
     if spec["steer"] == "sizes":
